@@ -179,6 +179,27 @@ def rule_reresolve(ck):
             ck.instance(("re-resolve", name), {"operator": name, "at A": repr(r1), "again at B": repr(r2), "fresh node at B": repr(fresh)}, fn="operators::wrap_impure")
             if r2 != fresh:
                 stale.append(name)
+    # literal tokens: resolved a second time (the next copy of a '.repeat' body, the size pass and the value pass) they denote the same value
+    comp = lambda: I.instantiate(I.module_get("compiler", "Compiler"), ["ascii"], {})
+    T = lambda nm: I.module_get("types", nm)
+    literals = [("'a", lambda sh: sh.mk(T("CharLiteral"), None, None, "'a", "a"), 0x61), ('"ab', lambda sh: sh.mk(T("CharLiteral"), None, None, '"ab', "ab"), 0x6261),
+                ("12", lambda sh: sh.number("12", 10), 10)]
+    for text, mk_, want in literals:
+        def thunk_l(mk_=mk_):
+            sh = Shapes(I)
+            node = mk_(sh)
+            st = {"emit_address": A, "compiler": comp()}
+            return [I.call_method(node, "resolve", [st]) for _ in range(3)]
+        try:
+            res = I.explore(thunk_l)
+        except Raised:
+            res = []
+        ck.instance(("re-resolve literal", text), {"literal": text, "three evaluations": repr(res[0].value) if res and res[0].kind == "return" else repr(res)}, fn="types::CharLiteral.resolve")
+        if len(res) != 1 or res[0].kind != "return":
+            ck.incomplete("types::CharLiteral.resolve", f"resolving the literal {text} three times", res)
+        elif res[0].value != [want] * 3:
+            ck.violation("types::CharLiteral.resolve", f"the literal {text} evaluated three times gives {res[0].value!r}, expected {want} each time: a parse-tree node is evaluated once per pass and per copy of a repeated body",
+                         construct="literal value on re-resolve")
     if n < 15:
         ck.unknown(f"only {n} arithmetic operators were exercised (20 confirmed by hand)")
     if stale:
